@@ -310,6 +310,20 @@ func gen(c *ex.Ctx) {
 		sw := findSwitch(fd, "pd", c)
 		var tab []modeArm
 		var other []int
+		// the status local (`ps := 0` in front of the switch): its NAME does not matter (round 5)
+		stv := "ps"
+		if fd.Body != nil {
+			for _, st := range fd.Body.List {
+				if as, ok := st.(*ast.AssignStmt); ok && as.Tok == token.DEFINE && len(as.Lhs) == 1 && len(as.Rhs) == 1 {
+					if id, ok := as.Lhs[0].(*ast.Ident); ok {
+						if v, ok := intLit(as.Rhs[0]); ok && v == 0 {
+							stv = id.Name
+							break
+						}
+					}
+				}
+			}
+		}
 		if sw == nil {
 			c.Fail("mode.go: decrqm: switch pd not found")
 		} else {
@@ -326,7 +340,7 @@ func gen(c *ex.Ctx) {
 						if isw, ok := cc.Body[0].(*ast.SwitchStmt); ok && isw.Tag != nil {
 							tag := c.Src(isw.Tag)
 							body := strings.Join(strings.Fields(c.Src(isw.Body)), " ")
-							if strings.HasPrefix(tag, "vt.mode.") && body == "{ case true: ps = 1 case false: ps = 2 }" {
+							if strings.HasPrefix(tag, "vt.mode.") && body == "{ case true: "+stv+" = 1 case false: "+stv+" = 2 }" {
 								tab = append(tab, modeArm{n, strings.TrimPrefix(tag, "vt.mode."), ""})
 								okShape = true
 							}
